@@ -1241,6 +1241,29 @@ func PhiLeaves(v ssa.Value) []PhiLeaf {
 		v = stripConv(v)
 		phi, ok := v.(*ssa.Phi)
 		if !ok {
+			// a local variable kept in memory (e.g. results spilled because of defer): the stores that reach the load,
+			// each with the conditions under which it executes
+			if ld, isLoad := v.(*ssa.UnOp); isLoad && ld.Op == token.MUL && !seen[v] {
+				if a, isAlloc := ld.X.(*ssa.Alloc); isAlloc && len(addrsOfCell(&Cell{a})) == 1 {
+					if sts, fromEntry := ReachingStores(ld); len(sts) > 0 && !fromEntry {
+						seen[v] = true
+						for _, st := range sts {
+							walk(st.Val, append(append([]CondEdge{}, conds...), GuardingEdges(st)...))
+						}
+						return
+					}
+				}
+			}
+			// the result of a local closure / unseen helper: its returns, each with the conditions under which it is taken
+			if call, isCall := v.(*ssa.Call); isCall && !seen[v] {
+				if f := TransparentCallee(call); f != nil && f.Signature.Results().Len() == 1 && !IsErrorType(call.Type()) {
+					seen[v] = true
+					for _, r := range Returns(f) {
+						walk(r.Results[0], append(append([]CondEdge{}, conds...), GuardingEdges(r)...))
+					}
+					return
+				}
+			}
 			out = append(out, PhiLeaf{v, conds})
 			return
 		}
@@ -1349,4 +1372,37 @@ func callsToDeep(fn *ssa.Function, names []string, depth int) []VirtualCall {
 		out = append(out, VirtualCall{Site: call, Inner: inner[0].Inner, Via: h, Must: t == nil})
 	})
 	return out
+}
+
+// IsCallToDeep: the instruction is a call of one of the named callees, or a call of a local closure / unseen
+// helper whose body contains one (may-semantics, two levels).
+func IsCallToDeep(in ssa.Instruction, names ...string) bool {
+	if IsCallTo(in, names...) {
+		return true
+	}
+	call, ok := in.(*ssa.Call)
+	if !ok {
+		return false
+	}
+	h := TransparentCallee(call)
+	if h == nil {
+		return false
+	}
+	found := false
+	Instrs(h, func(x ssa.Instruction) {
+		if IsCallTo(x, names...) {
+			found = true
+			return
+		}
+		if c2, ok := x.(*ssa.Call); ok {
+			if h2 := TransparentCallee(c2); h2 != nil && h2 != h {
+				Instrs(h2, func(y ssa.Instruction) {
+					if IsCallTo(y, names...) {
+						found = true
+					}
+				})
+			}
+		}
+	})
+	return found
 }
